@@ -123,7 +123,7 @@ func init() {
 	})
 	register(&Prop{
 		ID:    "C20",
-		Rules: []func(*core.Ctx){RSub, RSubFirst, RCaseRecur, RAsciiFold, RCiRef, RNegChars, RAddMono, RFoldSib, RLetterRange, ROr20, RCatIdent, RCopyAll, RCiFlag, RCaseBit, RNodeOpts, RUnionNeg},
+		Rules: []func(*core.Ctx){RSub, RSubFirst, RCaseRecur, RAsciiFold, RCiRef, RNegChars, RAddMono, RFoldSib, RLetterRange, ROr20, RCatIdent, RCopyAll, RCiFlag, RCaseBit, RNodeOpts, RUnionNeg, RLcTable},
 		Explanation: "R-SUB on the case transformers (case equivalences reach a class's subtraction), R-CASERECUR (a subtraction is parsed with the same case flag), R-ASCIIFOLD (ASCII-only ignore-case search helpers only on ASCII-tested needles), R-CIREF (reduce clears IgnoreCase on everything but backreferences; refmatch folds both sides alike), R-NEGCHARS. " +
 			"The invariance of match outcomes under case changes is NOT decided.",
 	})
